@@ -420,6 +420,27 @@ func ruleOptionTable(w *World, r *Report, pfx string, want map[string][3]string)
 						if w.isParamOf(st.Val, fn, 0) {
 							okStore = true
 						}
+					case "paramOrDefault":
+						// the argument, possibly replaced by a default when it is nil (`if w == nil { w = io.Discard }`)
+						cands := []ssa.Value{st.Val}
+						if ld, ok := stripConv(st.Val).(*ssa.UnOp); ok && ld.Op == token.MUL {
+							cands = append(cands, w.cellStores(ld.X)...)
+						}
+						for _, cv := range cands {
+							if w.isParamOf(cv, fn, 0) || cv == ssa.Value(fn.Params[0]) {
+								okStore = true
+							}
+							// or the result of a private helper that returns the argument or the default
+							if c, ok := stripConv(cv).(*ssa.Call); ok {
+								if h := c.Call.StaticCallee(); h != nil && w.modSet[h] && len(c.Call.Args) >= 1 && (w.isParamOf(c.Call.Args[0], fn, 0) || c.Call.Args[0] == ssa.Value(fn.Params[0])) {
+									for _, hb := range h.Blocks {
+										if ret, ok := hb.Instrs[len(hb.Instrs)-1].(*ssa.Return); ok && len(ret.Results) == 1 && stripConv(ret.Results[0]) == ssa.Value(h.Params[0]) {
+											okStore = true
+										}
+									}
+								}
+							}
+						}
 					case "true":
 						if bv, ok := constBool(st.Val); ok && bv {
 							okStore = true
